@@ -44,7 +44,7 @@ P = 'C09'
 BUDGETS = {'C09': (75, 1200, 40)}
 LEVELS = {'C09': 'exploration'}
 ALLOWED = (ServerError, ProtocolError, SSLVerificationError, NetworkError)
-PROBES = {'C09': ['layer.http', 'layer.web', 'layer.robots', 'layer.ftp', 'layer.crawl', 'crawl_ftp', 'ftp_symlinks', 'continue_with_partial_files', 'long_line', 'raw_random', 'truncated', 'odd_location',
+PROBES = {'C09': ['layer.http', 'layer.web', 'layer.robots', 'layer.ftp', 'layer.crawl', 'robots_redirected_to_other_origin', 'crawl_ftp', 'ftp_symlinks', 'continue_with_partial_files', 'long_line', 'raw_random', 'truncated', 'odd_location',
                   'odd_cookie', 'cookie_flood', 'bad_compression', 'ftp_reply_mutated', 'ftp_listing_mutated', 'hostile_html', 'hostile_css', 'hostile_js',
                   'hostile_sitemap', 'hostile_robots', 'real_file_writer', 'per_url_error_seen', 'healthy_fetched_after_hostile', 'reset', 'stall']}
 INFO = {'C09': {
@@ -220,7 +220,16 @@ def layer_web(tape, r, robots=False):
         r.probes['hostile_robots'] += 1
         if tape.chance(1, 2, 'robots.http_ok'):
             wire = b'HTTP/1.1 200 OK\r\nContent-Type: text/plain\r\nContent-Length: %d\r\n\r\n' % len(doc) + doc
-            hh.fixed[b'/robots.txt'] = (wire, 'open')
+            if tape.chance(1, 3, 'robots.redirected'):
+                # the file lives elsewhere: on another origin (another host, another port, https) or just another path
+                loc = tape.choice((b'http://elsewhere.test/robots-real.txt', b'http://hostile.test:8080/robots-real.txt', b'/robots-real.txt',
+                                   b'//other.test/robots-real.txt'), 'robots.redirected.to')
+                hh.fixed[b'/robots.txt'] = (b'HTTP/1.1 30%d Moved\r\nLocation: ' % tape.choice((1, 2, 7), 'robots.redirected.code') + loc + b'\r\nContent-Length: 0\r\n\r\n', 'open')
+                hh.fixed[b'/robots-real.txt'] = (wire, 'open')
+                descs.append(['robots-redirected:%r' % loc])
+                r.probes['robots_redirected_to_other_origin'] += 1
+            else:
+                hh.fixed[b'/robots.txt'] = (wire, 'open')
             descs.append(['hostile-robots-body'])
     outcome = {}
     simset.set_tape(tape)
@@ -231,6 +240,7 @@ def layer_web(tape, r, robots=False):
             net.add_host('hostile.test', '10.9.0.1')
             net.wildcard_dns = '10.9.0.1'
             net.listen('10.9.0.1', 80, _HostileOrigin(hh))
+            net.listen('10.9.0.1', 8080, _HostileOrigin(hh))
             resolver = Resolver()
             resolver.dns_python_enabled = False
             pool = ConnectionPool(resolver=resolver, connection_factory=functools.partial(Connection, timeout=30.0, connect_timeout=30.0))
